@@ -1,11 +1,11 @@
 #!/bin/bash
 # runs every registered check at the given tier, one after the other; prints one line per check
 TIER=${1:-quick}
-cd /verif && ./run.sh build || exit 2
+cd "$(dirname "$0")" && HERE=$(pwd) && export VERIF_DIR=$HERE && ./run.sh build || exit 2
 rc=0
-for id in $(python3 -c "import json;print(' '.join(c['property_id'] for c in json.load(open('/verif/MANIFEST.json'))['checks']))"); do
+for id in $(python3 -c "import json;print(' '.join(c['property_id'] for c in json.load(open('MANIFEST.json'))['checks']))"); do
   s=$(date +%s)
-  out=$(/verif/.build/c4emc check $id --tier $TIER 2>/dev/null); e=$?
+  out=$($HERE/.build/c4emc check $id --tier $TIER 2>/dev/null); e=$?
   echo "$id exit=$e $(( $(date +%s)-s ))s $(echo "$out" | grep -c '^KNOWN-FINDING') known $(echo "$out" | grep -c '^VIOLATION') violations"
   [ $e -ne 0 ] && rc=1 && echo "$out" | grep -A2 '^VIOLATION\|MACHINERY' | head -12
 done
